@@ -15,7 +15,7 @@ from collections import deque
 import re
 
 import q
-from mir import Agg, Bin, Call, Cast, Const, Deref, Discr, Field, Named, Ref, Un, Var
+from mir import Agg, Bin, Call, Cast, Const, Deref, Discr, Downcast, Field, Named, Ref, Un, Var
 
 MASKS = {"u8": 0xFF, "u16": 0xFFFF, "u32": 0xFFFFFFFF, "u64": (1 << 64) - 1, "usize": (1 << 64) - 1}
 
@@ -42,6 +42,34 @@ for _t in ("u8", "char"):
         STD_PURE["%s::%s" % (_t, _n)] = _f
 
 
+def _const_table_get(x, env, roles):
+    """x = `TABLE.get(i)` with TABLE a constant byte table of the crate and i evaluable: (in range?, element)."""
+    while isinstance(x, (Named, Ref, Deref)):
+        x = x.x
+    if not (isinstance(x, Call) and q.nice(x.callee) == "slice::get" and len(x.args) == 2):
+        return None
+    t = x.args[0]
+    while isinstance(t, (Named, Ref, Deref, Cast)):
+        t = t.x
+    owner = getattr(x, "owner", None)
+    if not isinstance(t, Const) or owner is None or not t.c.get("uneval") or t.c.get("promoted") is not None:
+        return None
+    k = owner.facts.consts.get(t.c["uneval"])
+    if not k or not re.match(r"^&(?:'static )?\[(u8|i8); \d+\]$", k.get("ty", "")):
+        return None
+    a = k.get("alloc") or {}
+    data = a["ptrs"][0]["alloc"].get("bytes") if a.get("ptrs") else a.get("bytes")
+    i = eval_expr(x.args[1], env, roles)
+    if data is None or i is None:
+        return None
+    if not (0 <= i < len(data)):
+        return (False, None)
+    v = data[i]
+    if "[i8" in k["ty"] and v >= 128:
+        v -= 256
+    return (True, v)
+
+
 def eval_expr(e, env, roles=None):
     """Evaluate an expression tree to an int (bools as 0/1) given env {shape: value}; None if
     it depends on anything else."""
@@ -58,6 +86,10 @@ def eval_expr(e, env, roles=None):
         if e.int is not None:
             return e.int
         return None
+    if isinstance(e, Field) and e.idx == 0 and isinstance(e.x, Downcast) and e.x.variant == "Some":
+        hit = _const_table_get(e.x.x, env, roles)
+        if hit is not None:
+            return hit[1] if hit[0] else None  # the element TABLE.get(i) found
     if isinstance(e, Field) and e.idx == 0:
         inner = e.x
         while isinstance(inner, Named):
@@ -68,6 +100,9 @@ def eval_expr(e, env, roles=None):
     if isinstance(e, Agg) and e.ak == "adt" and not e.ops and "vi" in e.rv:
         return e.rv["vi"]  # unit enum variant: its discriminant index
     if isinstance(e, Discr):
+        hit = _const_table_get(e.x, env, roles)
+        if hit is not None:
+            return 1 if hit[0] else 0  # Option discriminant of TABLE.get(i)
         return eval_expr(e.x, env, roles)
     if isinstance(e, Cast):
         v = eval_expr(e.x, env, roles)
